@@ -4,7 +4,6 @@ package main
 
 import (
 	"fmt"
-	"go/constant"
 	"go/types"
 	"sort"
 	"strings"
@@ -634,123 +633,18 @@ func ruleOneWitness(w *World, r *Run, rule string) {
 
 // C14.b EVERY-FEEDER-STARTED / EXHAUSTIVE
 func ruleEveryFeeder(w *World, r *Run, rule string) {
-	// enum constants of type Feeder
-	ft := w.lookup(pOmni, "Feeder")
-	if ft == nil {
-		r.Undecided(rule, "omniwitness.Feeder", "", "type not found")
+	// the registry, obtained by evaluating ParseFeeder on every candidate name and FeedFunc on every enum constant
+	reg := feederRegistry(w)
+	if reg.err != "" {
+		r.Undecided(rule, "omniwitness feeder registry", "", reg.err)
 		return
 	}
-	consts := map[string]string{} // value -> name
-	scope := w.pkg(pOmni).Types.Scope()
-	for _, n := range scope.Names() {
-		if c, ok := scope.Lookup(n).(*types.Const); ok && types.Identical(c.Type(), ft.Type()) {
-			consts[c.Val().ExactString()] = n
-		}
-	}
-	noneVal := ""
-	for v, n := range consts {
-		if n == "None" {
-			noneVal = v
-		}
-	}
-	// values of the feederByName map literal (stores in the package initialiser)
-	byName := map[string]string{} // yaml name -> const value
-	if initFn := w.funcs[pOmni+".init"]; initFn != nil {
-		for _, b := range initFn.Blocks {
-			for _, in := range b.Instrs {
-				mu, ok := in.(*ssa.MapUpdate)
-				if !ok {
-					continue
-				}
-				k, ok1 := mu.Key.(*ssa.Const)
-				v, ok2 := mu.Value.(*ssa.Const)
-				if ok1 && ok2 && types.Identical(v.Type(), ft.Type()) && k.Value.Kind() == constant.String {
-					byName[constant.StringVal(k.Value)] = v.Value.ExactString()
-				}
-			}
-		}
-	}
+	consts, noneVal, byName, handled := reg.consts, reg.noneVal, reg.byName, reg.impl
 	if len(byName) < 2 || noneVal == "" {
-		r.Undecided(rule, "omniwitness.feederByName", "", fmt.Sprintf("feeder registry not recognised (%d names, None=%q)", len(byName), noneVal))
+		r.Undecided(rule, "omniwitness feeder registry", "", fmt.Sprintf("feeder registry not recognised (%d names, None=%q)", len(byName), noneVal))
 		return
 	}
 	r.extra["feeder_names"] = sortedMapKeys(byName)
-	sums, _, ok := explore(w, r, rule, fnFeedFunc, 4, 1)
-	if !ok {
-		return
-	}
-	fp := recvParam(w.fn(fnFeedFunc))
-	handled := map[string]*Term{}
-	for _, s := range sums {
-		if s.Panic || len(s.Rets) != 1 {
-			continue
-		}
-		for v := range consts {
-			if k, val, _ := eqConstFact(s, fp, v); k && val {
-				handled[v] = s.Rets[0]
-			}
-		}
-	}
-	if len(handled) == 0 {
-		// table-driven form: FeedFunc returns tbl[f] of a package-level map literal (a missing key panics)
-		for _, s := range sums {
-			if s.Panic || len(s.Rets) != 1 {
-				continue
-			}
-			t := s.Rets[0]
-			if t.Kind == "lookup" && t.Args[0].Kind == "maplit" && t.Args[1] == fp {
-				if k, ok, _ := boolFact(s, mk("lookup", "ok", 0, nil, t.Args[0], fp)); k && ok {
-					m := t.Args[0]
-					for i := 0; i+1 < len(m.Args); i += 2 {
-						if m.Args[i].Kind == "const" {
-							handled[m.Args[i].Name] = m.Args[i+1]
-						}
-					}
-				}
-			}
-			if t.Kind == "lookup" && t.Args[0].Kind == "global" && t.Args[1] == fp {
-				if k, ok, _ := boolFact(s, mk("lookup", "ok", 0, nil, t.Args[0], fp)); k && ok {
-					gname := t.Args[0].Name
-					if initFn := w.funcs[pOmni+".init"]; initFn != nil {
-						for _, b := range initFn.Blocks {
-							for _, in := range b.Instrs {
-								mu, ok := in.(*ssa.MapUpdate)
-								if !ok {
-									continue
-								}
-								u, ok1 := mu.Map.(*ssa.UnOp)
-								var g *ssa.Global
-								if ok1 {
-									g, _ = u.X.(*ssa.Global)
-								}
-								if mk2, ok := mu.Map.(*ssa.MakeMap); ok {
-									for _, ref := range *mk2.Referrers() {
-										if st, ok := ref.(*ssa.Store); ok {
-											g, _ = st.Addr.(*ssa.Global)
-										}
-									}
-								}
-								if g == nil || g.Pkg.Pkg.Path()+"."+g.Name() != gname {
-									continue
-								}
-								kc, okk := mu.Key.(*ssa.Const)
-								var fv *ssa.Function
-								switch x := mu.Value.(type) {
-								case *ssa.Function:
-									fv = x
-								case *ssa.ChangeType:
-									fv, _ = x.X.(*ssa.Function)
-								}
-								if okk && fv != nil {
-									handled[kc.Value.ExactString()] = mk("func", fv.String(), 0, fv.Type())
-								}
-							}
-						}
-					}
-				}
-			}
-		}
-	}
 	var ns []string
 	for n := range byName {
 		ns = append(ns, n)
@@ -781,27 +675,21 @@ func ruleEveryFeeder(w *World, r *Run, rule string) {
 			seen[t.Name] = v
 		}
 	}
-	// ParseFeeder: unknown names are an error, never a zero enum with nil error
-	if ps, _, ok := explore(w, r, rule, fnParseFeeder, 4, 1); ok {
+	// ParseFeeder: an unknown name is an error, never a zero enum with a nil error (evaluated on a name no registry has)
+	if pf := w.fn(fnParseFeeder); pf != nil && len(pf.Params) == 1 {
+		pe := w.engine(4, 16)
+		pt := mk("param", pf.Params[0].Name(), 0, pf.Params[0].Type())
+		pe.bind = map[string]*Term{pt.key: mk("const", "\"zz-no-such-feeder\"", 0, pf.Params[0].Type())}
+		ps := pe.Explore(pf)
+		r.Analysed(fnParseFeeder, len(ps))
 		for _, s := range ps {
-			if len(s.Rets) != 2 {
+			if s.Panic || len(s.Rets) != 2 {
 				continue
 			}
-			var okf *Fact
-			for i, f := range s.Facts {
-				if f.T.Kind == "lookup" && f.T.Name == "ok" {
-					okf = &s.Facts[i]
-				}
-			}
-			if okf == nil {
-				r.Fail("C17.b", fnParseFeeder+" | result depends on the registry lookup", w.pos(s.RetPos), "ParseFeeder returns without consulting the registry")
-				continue
-			}
-			if okf.Pos {
-				r.Check(s.Rets[1].Kind == "nil" && s.Rets[0].Kind == "lookup", "C17.b", fnParseFeeder+" | known name -> its enum", w.pos(s.RetPos), "ParseFeeder returns "+short(fmt.Sprint(s.Rets)))
-			} else {
-				r.Check(neverNil(s.Rets[1]), "C17.b", fnParseFeeder+" | unknown name -> error", w.pos(s.RetPos), "an unknown feeder name yields a nil error (start-up would then panic in FeedFunc)")
-			}
+			r.Check(neverNil(s.Rets[1]), "C17.b", fnParseFeeder+" | unknown name -> error", w.pos(s.RetPos), "an unknown feeder name yields a nil error (start-up would then panic in FeedFunc, or the log would silently not be fed)")
+		}
+		if len(ps) == 0 {
+			r.Undecided("C17.b", fnParseFeeder, "", "no path")
 		}
 	}
 	// Main: FeedFunc only for entries whose feeder is not None; when polling is enabled every (log, feeder) pair built from
